@@ -53,6 +53,11 @@ where
     }
     let sequential =
         manager.workers().current_num_threads() == 1 || manager.approx_num_inner_nodes() < 65536;
+    // Verification hook: let a harness select the concurrent variant also for
+    // small diagrams
+    #[cfg(oxidd_verif)]
+    let sequential =
+        sequential && !crate::VERIF_FORCE_CONCURRENT.load(std::sync::atomic::Ordering::Relaxed);
     let (sort, update): (SortFn<M>, UpdateLevelFn<M>) = if sequential {
         (bubble_sort, update_levels_seq)
     } else {
